@@ -6,10 +6,11 @@ By C01 (`valid_roundtrip`) a valid element's encoding decodes to an element equa
 constructor: the constants, the decoders (every entry point reduces to `decode32`), the samplers (they return the
 first candidate that decodes — for EVERY stream of candidates), the affine/projective conversions, and
 `from_random_bytes` (after the repair: the double of a curve point).  The order clause ("r times it is the
-identity") is C05's `order_dvd`, proved under the hypothesis |E| = 4r (see there).
+identity") is `valid_order`, from C05's `order_dvd` (proved in full, DESIGN.md §5.7).
 -/
 import Decaf.BuildsCmd
 import Decaf.Props.C07
+import Decaf.Props.C05
 import Decaf.Model.Exec
 
 namespace C06
@@ -25,6 +26,12 @@ theorem valid_roundtrip (h : SRContract sr) {c : Ext} (hv : Valid c) :
   obtain ⟨pt, hr, he⟩ := hv
   obtain ⟨bytes, c', pt', henc, hdec, hr', hcos, heq⟩ := C01.decode_encode h hr he
   exact ⟨bytes, c', henc, hdec, heq, pt', hr', Point.isEven_of_coset hcos he⟩
+
+/-- what validity buys, second half: r times the element is the identity, with either backend's ladder -/
+theorem valid_order {c : Ext} (hv : Valid c) :
+    Ext.eq Ext.identity (c.scalarMulMin C05.rLimbs) = true ∧ Ext.eq Ext.identity (c.scalarMulRef C05.rLimbs) = true := by
+  obtain ⟨pt, hr, he⟩ := hv
+  exact C05.order_dvd_eq hr he
 
 /-! ### constants -/
 theorem generator_valid : Valid ⟨C17.bx, C17.by', 1, C17.bt⟩ := ⟨C04.genPoint, C04.gen_repr, C01.generator_even⟩
